@@ -151,6 +151,12 @@ def run(ctx):
             tr = list(groups)
             tr[gi] = groups[gi][:-1]
             pairs.append((groups, tr, gi, None, h))
+            # the same with an EMPTY body: the file ends right after the method header
+            o2, t2 = list(groups), list(groups)
+            o2[gi] = h + e
+            t2[gi] = list(h)
+            pairs.append((o2, t2, gi, None, h))
+            ctx.count("truncated right after the header")
     lines = []
     for o, m, gi, b, h in pairs:
         lines.append(layout(o)[0])
